@@ -1,0 +1,27 @@
+//go:build verif
+
+// Contracts for package certchain, read by /verif/govc. Comments only.
+
+package certchain
+
+// The generator stores the certificate of instance InitialInstance+k at index k.
+//@ pred certsIndexed(cc *CertChain) = forall(k, 0, len(cc.certificates), cc.certificates[k].GPBFTInstance == cc.m.InitialInstance + k)
+//@ pred headEpoch(c *certs.FinalityCertificate) = c.ECChain.TipSets[len(c.ECChain.TipSets)-1].Epoch
+
+// Same look-back rule as a node (consensus_inputs.go GetCommittee): the committee of instance i is taken at
+// the head finalized by the certificate of instance i - CommitteeLookback, the bootstrap table before that.
+//@ func (*CertChain).GetCommittee
+//@   property C19
+//@   harness harness/certchain_lookback_test.go
+//@   requires certsIndexed(cc)
+//@   requires cc.m.InitialInstance + cc.m.CommitteeLookback <= 9223372036854775807
+//@   requires forall(k, 0, len(cc.certificates), cc.certificates[k].ECChain != nil && len(cc.certificates[k].ECChain.TipSets) > 0)
+//@   requires 0 <= cc.m.BootstrapEpoch && cc.m.BootstrapEpoch <= 4611686018427387903 && 0 <= cc.m.EC.Finality && cc.m.EC.Finality <= 4611686018427387903
+//@   modifies auto
+//@   maypanic
+//@   at getTipSetWithPowerTableByEpoch 1
+//@     before[initial_table_inside_the_lookback_window] instance < cc.m.InitialInstance + cc.m.CommitteeLookback ==>
+//@          arg(2) == cc.m.BootstrapEpoch - cc.m.EC.Finality
+//@     before[lookback_certificate_is_instance_minus_lookback] instance >= cc.m.InitialInstance + cc.m.CommitteeLookback ==>
+//@          exists(k, 0, len(cc.certificates), cc.certificates[k].GPBFTInstance == instance - cc.m.CommitteeLookback
+//@             && arg(2) == headEpoch(cc.certificates[k]))
